@@ -280,6 +280,22 @@ def run_case(case):
                     if [c[2] for c in calls] != exp[2]:  # the steps that were run, by content (the CLI returns nothing to look at)
                         viol.append({"what": "driver_iterations", "driver": "cli.cmd_run", "met": met,
                                      "indices": [c[1] for c in calls], "expected": exp[1], "label": label})
+                    # the same file with a second and a third tower: every tower runs every step (the command line has no other driver)
+                    raw3 = dict(raw, towers=raw["towers"] + [{"name": "B", "lat": 50.0002, "lon": 11.0003, "z_m": 4.0}, {"name": "C", "lat": 50.0003, "lon": 10.9998, "z_m": 2.5}])
+                    p3 = os.path.join(d, "c3.yaml")
+                    with open(p3, "w") as f:
+                        yaml.safe_dump(raw3, f)
+                    calls.clear()
+                    cli.run_bldfm_single = stub
+                    try:
+                        cli.cmd_run(types.SimpleNamespace(config=p3, dry_run=False, plot=False))
+                    finally:
+                        cli.run_bldfm_single = real_single_cli
+                    counters["cli_runs_with_three_towers"] = counters.get("cli_runs_with_three_towers", 0) + 1
+                    want3 = [(nm_, st_) for nm_ in ("A", "B", "C") for st_ in exp[2]]
+                    if [(c[0], c[2]) for c in calls] != want3:
+                        viol.append({"what": "driver_iterations", "driver": "cli.cmd_run", "towers": 3, "met": met, "runs": [(c[0], c[1]) for c in calls],
+                                     "expected_steps_per_tower": exp[1], "label": label})
         if len(samples) < 2 and nontrivial:
             samples.append({"label": label, "met": met, "model": exp[0] if exp[0] == "reject" else {"n": exp[1], "step0": exp[2][0]}})
     return {"evals": k, "nontrivial": bool(sigs), "sig": sigs, "buckets": buckets, "counters": counters,
